@@ -308,36 +308,47 @@ def run(prog, R):
         if not it.advance:
             R.anchor_missing('EPOS-6', '%s: advance function' % fmt)
             continue
+        def line_update_ok(body, st):
+            """`position.line = position.line + X` with the per-format X"""
+            if not (st.rv.k == 'bin' and st.rv.j['op'].startswith('Add')):
+                return False
+            other = [o for o in st.rv.ops if o.is_const or [p['name'] for p in o.place.proj if p['k'] == 'field'] != ['position', 'line']]
+            if len(other) != 1:
+                return False
+            o = other[0]
+            if fmt == 'fastq':
+                return o.const_int() == 4
+            rs = roots_of(body, o, U.du_of(body), through_calls=identity_through)
+            return bool(rs) and all(r[0] == 'call' and r[1].callee.name == 'len' and
+                                    all(q[0] == 'arg' and [z[1] for z in q[-1]] == ['buf_pos', 'seq_pos'] for q in roots_of(body, r[1].args[0], U.du_of(body), through_calls=identity_through))
+                                    for r in rs)
+
+        def equivalent(body, x, y):
+            return x == y or (body.cfg.dominates(x, y) and body.cfg.postdominates(y, x)) or (body.cfg.dominates(y, x) and body.cfg.postdominates(x, y))
+        paired_line_stmts = set()
+        nadv = 0
         for ap in sorted(it.advance):
             ab = prog.bodies[ap]
-            ws = [w for w in writers.get(ap, []) if w[2] == ('position', 'line')]
-            ok = False
-            det = 'no update of position.line in the advance function'
-            for (bi, st, names) in ws:
-                if st.rv.k == 'bin' and st.rv.j['op'].startswith('Add'):
-                    ops = st.rv.ops
-                    other = [o for o in ops if o.is_const or [p['name'] for p in o.place.proj if p['k'] == 'field'] != ['position', 'line']]
-                    if len(other) == 1:
-                        o = other[0]
-                        if fmt == 'fastq':
-                            ok = o.const_int() == 4
-                            det = 'position.line += %s' % o.pretty()
-                        else:
-                            rs = roots_of(ab, o, U.du_of(ab), through_calls=identity_through)
-                            ok = bool(rs) and all(r[0] == 'call' and r[1].callee.name == 'len' and
-                                                  all(q[0] == 'arg' and [z[1] for z in q[-1]] == ['buf_pos', 'seq_pos'] for q in roots_of(ab, r[1].args[0], U.du_of(ab), through_calls=identity_through))
-                                                  for r in rs)
-                            det = 'position.line += len(buf_pos.seq_pos): %s' % ok
-                        # same paths: the line update and the byte update dominate the exit together
-                        byte_blocks = [x for x in ab.cfg.reachable for s2 in ab.blocks[x].stmts
-                                       if s2.k == 'assign' and tuple(p['name'] for p in s2.place.proj if p['k'] == 'field') == ('position', 'byte')]
-                        ok = ok and all(ab.cfg.dominates(bi, e) and all(ab.cfg.dominates(bb, e) for bb in byte_blocks) for e in ab.cfg.exits)
-            R.add('EPOS-6', ab, 'lines-advance-with-bytes', ok, site(ab, ab.span['lo']), det)
+            for blk in ab.blocks:
+                if blk.idx not in ab.cfg.rset:
+                    continue
+                for st in blk.stmts:
+                    if id(st) not in it.advance_stmts:
+                        continue
+                    nadv += 1
+                    partner = None
+                    for (bi, st2, names) in writers.get(ap, []):
+                        if names == ('position', 'line') and line_update_ok(ab, st2) and equivalent(ab, blk.idx, bi):
+                            partner = st2
+                            paired_line_stmts.add(id(st2))
+                    R.add('EPOS-6', ab, 'lines-advance-with-bytes#%d' % nadv, partner is not None, site(ab, st.line),
+                          'the advance over a record (position.byte += extent) is %s by position.line += %s on the same paths' % (
+                              'accompanied' if partner is not None else 'NOT accompanied', '4' if fmt == 'fastq' else 'number of line offsets'))
         for wp, ws in sorted(writers.items()):
-            if wp in it.advance:
-                continue
             wb = prog.bodies[wp]
             for (bi, st, names) in ws:
+                if id(st) in paired_line_stmts:
+                    continue
                 if wb.key.endswith('::seek'):
                     okw = names == ('position',)
                     why = 'seek copies the target position'
@@ -422,13 +433,13 @@ def classify_shift(b, s, consume_term, du):
 
 def unit3b(prog, R):
     from fsm import Interp, Heap, E, classify
-    try:
-        search = prog.get('fastq::Reader::search')
-        rp = [v['name'] for v in prog.adts['fastq::RecordPos']['variants']]
-    except KeyError:
-        R.anchor_missing('UNIT-3b', 'fastq::Reader::search / RecordPos')
-        return
     it = Interp(prog, 'fastq')
+    fresh = [prog.bodies[p] for p in it.locate if prog.bodies[p].arg_count == 1]
+    if len(fresh) != 1 or 'fastq::RecordPos' not in prog.adts:
+        R.anchor_missing('UNIT-3b', 'the fresh record search of the fastq reader (search-family function without parameters), found %d' % len(fresh))
+        return
+    search = fresh[0]
+    rp = [v['name'] for v in prog.adts['fastq::RecordPos']['variants']]
     it.track_writes = True
     LINES = {'seq', 'sep', 'qual'}
     h0 = Heap(state='Parsing', inc='None', complete=False, setc='old', dirty=False, pushed=False, w=(), incv='-')
